@@ -154,16 +154,19 @@ def c_timeline(chk, g, drv, jobs):
         jobs.append(('timeline', args, impl))
 
 
-def c_trajectory(chk, g, drv, jobs):
-    """the trajectory layer without the ephemeris: the real `xObservationTimeline` → `timeline_mets` → `_generic_binary_search` driven by a
+def c_trajectory(chk, g, drv, jobs, whole=None):
+    """`whole` = 'occ' | 'saa': the observation window lies wholly inside one occultation / one SAA passage (no transition at all inside it: the
+    search returns the whole window, the timeline has a single epoch, no GTI, and one calibration interval iff occulted).
+    the trajectory layer without the ephemeris: the real `xObservationTimeline` → `timeline_mets` → `_generic_binary_search` driven by a
     trajectory whose SAA / occultation status is a known set of intervals (whole seconds, every interval and gap longer than the 100 s search
     grid); the observation window starts and stops inside or outside an epoch of either kind, in every combination"""
     from ixpeobssim.instrument import traj
     T0 = 150000000 + int(g.integers(0, 10 ** 6))
     def intervals(period, length, phase):
         return [(T0 + k * period + phase, T0 + k * period + phase + length) for k in range(-2, 8)]
-    occ = intervals(int(g.integers(4000, 6000)), int(g.integers(800, 2500)), int(g.integers(0, 3000)))
-    saa = sorted((T0 + int(a), T0 + int(a) + int(g.integers(400, 1200))) for a in g.choice(numpy.arange(0, 30000, 2500), 3, replace=False) + g.integers(0, 800))
+    occ = intervals(int(g.integers(4000, 6000)), int(g.integers(800, 2500)) if whole != 'occ' else int(g.integers(1600, 2500)), int(g.integers(0, 3000)))
+    saa = sorted((T0 + int(a), T0 + int(a) + (int(g.integers(400, 1200)) if whole != 'saa' else int(g.integers(1600, 2200))))
+                 for a in g.choice(numpy.arange(0, 30000, 2500), 3, replace=False) + g.integers(0, 800))
     def inside(met, ivs):
         met = numpy.asarray(met, dtype=float)
         m = numpy.zeros(met.shape, dtype=bool)
@@ -197,6 +200,16 @@ def c_trajectory(chk, g, drv, jobs):
         return None
     k0, k1 = str(g.choice(['occ', 'saa', 'clear'])), str(g.choice(['occ', 'saa', 'clear']))
     a, b = pick(k0), pick(k1)
+    if whole is not None:
+        k0 = k1 = whole
+        marks = [x for iv in occ + saa for x in iv]
+        cands = [(lo, hi) for lo, hi in (occ[2:7] if whole == 'occ' else saa)
+                 if not any(lo - 150 < x < hi + 150 for x in marks if x not in (lo, hi)) and hi - lo >= 1500]
+        if not cands:
+            return
+        lo, hi = cands[int(g.integers(0, len(cands)))]
+        a = int(g.integers(lo + 150, lo + 200))
+        b = int(g.integers(hi - 200, hi - 150))
     if a is None or b is None or a == b:
         return
     start, stop = min(a, b), max(a, b)
@@ -375,6 +388,8 @@ def run_cases(chk, n, tagname, budget=1):
             GENS[name](chk, g, drv, jobs)
         if i % 2 == 0:
             c_trajectory(chk, g, drv, jobs)
+            if i % 8 == 0:
+                c_trajectory(chk, g, drv, jobs, whole='occ' if i % 16 == 0 else 'saa')
     replies = drv.run()
     for (name, args, impl), rep in zip(jobs, replies):
         model = [int(x) for x in rep.split()] if rep.strip() else []
@@ -390,7 +405,7 @@ def main(chk):
                 'independently; LC EXPOSURE through the real xpbin. non-trivial = ≥ 2 GTIs with kept and dropped times / both flags present and non-zero padding / '
                 'bin overlapping ≥ 2 GTIs')
     chk.assumptions = TRUSTED
-    chk.lean(['IxpeVerif.Props.C18', 'IxpeVerif.Props.Audit.C18'], ['bin_gti', 'filter_event_times', 'total_good_time', 'all_mets', 'gti_complement'])
+    chk.lean(['IxpeVerif.Props.C18', 'IxpeVerif.Props.Audit.C18'], ['bin_gti', 'filter_event_times', 'total_good_time', 'all_mets', 'gti_complement', 'interval_bounds', 'interval_duration', 'epoch_shrink', 'epoch_isgti', 'epoch_isocti', 'bisect_odd', 'calculate_epochs', 'filter_epochs', 'timeline_gti_list', 'timeline_octi_list'])
     n = 60 if chk.tier == 'quick' else 2000
     run_cases(chk, n, 'C18-corr')
     lc_file(chk, rng('C18-lc'))
